@@ -197,20 +197,17 @@ Spec == Init /\ [][Next]_vars
 
 \* ------------------------------------------------------------------ laws of the layout itself (checked on every term)
 AllProfiles == {Profiles[n] : n \in DOMAIN Profiles}
-S_(l) == l[1]
-O_(l) == l[3]
 FieldsOf(x) == IF Under(x).k = "struct" THEN Under(x).fields ELSE <<>>
-LawSizeMultipleOfAlign == ph = 0 \/ \A p \in AllProfiles : Size(t, p) % Align(t, p) = 0
+LawSizeMultipleOfAlign == ph = 0 \/ \A p \in AllProfiles : \A l \in {TL(t, p)} : l.s % l.a = 0
 LawOffsetsAligned ==
-  ph = 0 \/ \A p \in AllProfiles : \A l \in {Lay(t, p)} : \A i \in 1..Len(FieldsOf(t)) :
-     \A fsz \in {Size(FieldsOf(t)[i], p)} :
-           /\ O_(l)[i] % Align(FieldsOf(t)[i], p) = 0                      \* every field aligned
-           /\ O_(l)[i] + fsz <= S_(l)                                        \* inside the struct
-           /\ (i > 1 => O_(l)[i] >= O_(l)[i - 1] + Size(FieldsOf(t)[i - 1], p))   \* in order, no overlap
+  ph = 0 \/ \A p \in AllProfiles : \A l \in {TL(t, p)}, fs \in {FieldsOf(t)} : \A i \in 1..Len(fs) : \A f \in {TL(fs[i], p)} :
+           /\ l.o[i] % f.a = 0                                         \* every field aligned
+           /\ l.o[i] + f.s <= l.s                                      \* inside the struct
+           /\ (i > 1 => l.o[i] >= l.o[i - 1] + Size(fs[i - 1], p))     \* in declaration order, no overlap
 \* the reason for zpad: the address of every field of a non-empty struct is inside the object
 LawZeroTailInside ==
-  ph = 0 \/ \A p \in AllProfiles : p.zpad => \A l \in {Lay(t, p)} :
-     S_(l) > 0 => \A i \in 1..Len(FieldsOf(t)) : O_(l)[i] < S_(l)
+  ph = 0 \/ \A p \in AllProfiles : p.zpad => \A l \in {TL(t, p)} :
+     l.s > 0 => \A i \in 1..Len(l.o) : l.o[i] < l.s
 
 Emit == ph = 0 \/ PrintT(ToJson([t |-> t, ph |-> ph, cc |-> CCompat(t),
                                  L |-> [n \in DOMAIN Profiles |-> Lay(t, Profiles[n])]]))    \* in the order of ProfileNames
